@@ -362,7 +362,20 @@ def run_c20(tier, seed, replay=None, theorems=None, module=None):
     ]
     stats = collections.Counter()
     try:
-        core.lean_phase(rep, module if ths else None, ths, thorough=(tier == "thorough"))
+        model = core.lean_phase(rep, module if ths else None, ths, thorough=(tier == "thorough"))
+        # the outcome class of every router fault comes from the Lean model of the client (Model/Osrm.lean: lookup o faultReply)
+        global C20_EMPTY_CLASS, C20_EXCEPTION_CLASS
+        try:
+            import subprocess
+            out = subprocess.run([model, "--c20-classes"], capture_output=True, text=True, timeout=60).stdout.split("\n")
+            cls = {l.split()[0]: l.split()[1:] for l in out if l.strip()}
+            missing = [f for f in C20_FAULTS if f not in cls]
+            C20_EMPTY_CLASS = {f for f, c in cls.items() if c == ["stops", "0"]}
+            C20_EXCEPTION_CLASS = {f for f, c in cls.items() if c == ["throws"]}
+            rep.obligation("model:router-fault-classes", not missing and cls.get("healthy") == ["stops", "2"], "classes from the model: %s" % cls)
+            rep.cov["router_fault_classes_from_model"] = {f: " ".join(c) for f, c in cls.items()}
+        except Exception as e:
+            rep.obligation("model:router-fault-classes", False, repr(e))
         server = core.harness_phase(rep, "server", "asan")
         cachegen = core.harness_phase(rep, "cachegen", "plain")
         try:
